@@ -41,6 +41,10 @@ RULE = (
     "way); partition: both outputs non-empty; early exit: all consumers gone while a group's duration was still pending.  "
     "A third of the timeline durations are reactivex.timer(dt) built without a scheduler (the documented idiom), which "
     "must run on the scheduler the pipeline was subscribed with, i.e. expire the group dt virtual ticks after creation.  "
+    "Re-entrant arrival (check reentrant): the source is a Subject fed from the timeline, the key function is the "
+    "identity and every group is observed through do_action(on_completed=echo); the first 1..3 group completions push "
+    "the group's key back into the source synchronously.  That element arrives after its group expired (its subscriber is "
+    "being told so), so the reference opens a new group for it at that tick (non-trivial: >=1 echo).  "
     "subject_mapper (check subject_mapper): group_by / group_by_until given lambda: Subject() or the documented "
     "lambda: ReplaySubject(); with the replay subject the group probes may subscribe 1..5 ticks after the group was "
     "emitted and must still observe every element of the group in order and its terminal, none earlier than their own "
